@@ -99,6 +99,46 @@ func (c *Ctx) orderChain(rule string, fn *ssa.Function, steps []chainStep) {
 		if prev.Host != nil && prev.Host == s.Host {
 			// both phases live in the same helper: order them there
 			pa, sb = prev.Inner, s.Inner
+		} else if (prev.Host != nil || s.Host != nil) && prev.Host != s.Host {
+			// in different (nested) helpers: order them in the innermost function
+			// that contains, or calls the helper of, both
+			ra, rb := prev.Sites, s.Sites
+			if prev.Host != nil {
+				ra = prev.Inner
+			}
+			if s.Host != nil {
+				rb = s.Inner
+			}
+			if len(ra) > 0 && len(rb) > 0 {
+				g := ra[0].Parent()
+				for d := 0; d < 5 && g != nil; d++ {
+					la, lb := []ssa.Instruction{}, []ssa.Instruction{}
+					okAll := true
+					for _, x := range ra {
+						if y := c.standIn(g, x); y != nil {
+							la = append(la, y)
+						} else {
+							okAll = false
+						}
+					}
+					for _, x := range rb {
+						if y := c.standIn(g, x); y != nil {
+							lb = append(lb, y)
+						} else {
+							okAll = false
+						}
+					}
+					if okAll {
+						pa, sb = la, lb
+						break
+					}
+					if g == fn {
+						break
+					}
+					_, host := c.hostSites(g, true)
+					g = host
+				}
+			}
 		}
 		for _, a := range pa {
 			for _, b := range sb {
@@ -173,12 +213,16 @@ func (c *Ctx) rulesC05(a *coreAnchors) {
 			sites = st.Inner // the guard on the running result is tested inside the helper
 		}
 		for i, s := range sites {
-			c.requireGuards("C05.neg", "emitEvents>"+st.Name+nth(i), s, a.notCanceled())
+			c.requireGuardsHosted("C05.neg", "emitEvents>"+st.Name+nth(i), s, f, a.notCanceled())
 		}
 	}
 	for _, st := range []chainStep{steps[9], steps[10]} {
-		for i, s := range st.Sites {
-			c.requireGuards("C05.neg", "emitEvents>"+st.Name+nth(i), s, a.notCanceled(), a.notCheck())
+		sites := st.Sites
+		if st.Host != nil {
+			sites = st.Inner // the guard on the running result is tested inside the helper
+		}
+		for i, s := range sites {
+			c.requireGuardsHosted("C05.neg", "emitEvents>"+st.Name+nth(i), s, f, a.notCanceled(), a.notCheck())
 		}
 	}
 	c.floor("C05.neg", 9)
@@ -619,13 +663,31 @@ func (c *Ctx) rulesC07(a *coreAnchors) {
 				return false
 			}
 			v = c.hostedArg(v, f)
-			return flowsFrom(v, func(x ssa.Value) bool {
+			isNotIsTime := func(x ssa.Value) bool {
 				u, ok := x.(*ssa.UnOp)
 				if !ok || u.Op != token.NOT {
 					return false
 				}
 				call, ok := u.X.(*ssa.Call)
 				return ok && callIs(&call.Call, "Machine", "IsTime")
+			}
+			return flowsFrom(v, func(x ssa.Value) bool {
+				if isNotIsTime(x) {
+					return true
+				}
+				// handed back by a phase helper of emitEvents
+				if ex, ok := x.(*ssa.Extract); ok {
+					if hc, ok := ex.Tuple.(*ssa.Call); ok {
+						if cal := hc.Call.StaticCallee(); cal != nil && len(cal.Blocks) > 0 && c.hostedBy(cal, f) {
+							for _, hr := range returnsOf(cal) {
+								if ex.Index < len(retVals(hr)) && flowsFrom(retVals(hr)[ex.Index], isNotIsTime) {
+									return true
+								}
+							}
+						}
+					}
+				}
+				return false
 			})
 		}},
 	}
@@ -893,8 +955,8 @@ func (c *Ctx) rulesC14(a *coreAnchors, la *LockAnalysis) {
 			c.check(allPathsFromPassThrough(starts[0], func(i ssa.Instruction) bool { return i == endLock }), "C14.once", "TransitionEnd phase post-dominates TransitionStart", ends[0].Pos(), "a path from TransitionStart returns without reaching the TransitionEnd loop")
 		}
 	}
-	for i, s := range c.sitesOrHelper(f, "iface:Tracer.TransitionFinals") {
-		c.requireGuards("C14.once", "emitEvents>TransitionFinals"+nth(i), s, a.notCheck(), a.notCanceled())
+	for i, s := range c.innerSites(f, "iface:Tracer.TransitionFinals") {
+		c.requireGuardsHosted("C14.once", "emitEvents>TransitionFinals"+nth(i), s, f, a.notCheck(), a.notCanceled())
 	}
 	c.floor("C14.once", 7)
 
@@ -985,7 +1047,7 @@ func (c *Ctx) rulesC14(a *coreAnchors, la *LockAnalysis) {
 		good2 := false
 		extraCanc := ""
 		if cancStore != nil {
-			for _, g := range guardsOf(cancStore.Block()) {
+			for _, g := range c.guardsHosted(cancStore, f) {
 				switch {
 				case a.notCheck().Match(g):
 					good2 = true
